@@ -13,11 +13,12 @@ LEVEL_NOTE = ("bounded: <= 3 units of <= 3 NALs, parameter values a/b; sequences
               "sets after the key frame in the same unit, partially known parameters, order of the injected sets, MPEG-4 "
               "configurations in unusual places) every reading is accepted")
 
-CFG = """SPECIFICATION Spec
+CFG = """SPECIFICATION %(spec)s
 CONSTANTS
   Codecs = {%(codecs)s}
   MaxAUs = %(aus)d
   MaxNALs = %(nals)d
+  MaxNALs265 = %(nals265)d
   EmitLen = %(emit)d
 INVARIANTS DesignAgrees EmitCases
 CHECK_DEADLOCK FALSE
@@ -64,25 +65,28 @@ def _q(cs):
 
 def run(ctx):
     d = ctx.specdir()
+    t0 = time.time()
+    phases = {}
     allc = ["h264", "h265", "mpeg4", "av1"]
     # exhaustive runs: (codecs, units, NALs per unit)
-    ex = ctx.pick([(allc, 1, 3), (["h264", "mpeg4", "av1"], 2, 2)],
-                  [(allc, 1, 3), (allc, 2, 2), (["mpeg4", "av1"], 2, 3), (["mpeg4", "av1"], 3, 2)])
+    ex = ctx.pick([(allc, 1, 3, 2)],
+                  [(allc, 1, 3, 3), (allc, 2, 2, 2), (["mpeg4", "av1"], 2, 3, 3), (["mpeg4", "av1"], 3, 2, 2)])
     # sampled runs (TLC -simulate): (codecs, number of sequences) of 3 units of <= 3 NALs
-    sim = ctx.pick([(["h264", "h265"], 1500), (["mpeg4", "av1"], 400)],
-                   [(["h264"], 40000), (["h265"], 40000), (["mpeg4", "av1"], 10000)])
+    sim = ctx.pick([(["h264", "h265"], 1000), (["mpeg4", "av1"], 300)],
+                   [(["h264"], 25000), (["h265"], 25000), (["mpeg4", "av1"], 8000)])
     jobs, kinds = [], []
-    for i, (cs, aus, nals) in enumerate(ex):
-        name = _cfg(ctx, "Remux_ex_%d.cfg" % i, CFG % dict(codecs=_q(cs), aus=aus, nals=nals, emit=aus))
+    for i, (cs, aus, nals, nals265) in enumerate(ex):
+        name = _cfg(ctx, "Remux_ex_%d.cfg" % i, CFG % dict(spec="Spec", codecs=_q(cs), aus=aus, nals=nals, nals265=nals265, emit=aus))
         jobs.append(lambda name=name: vf.tlc(ctx, "Remux", name, workers=4, timeout=1200, java_opts=["-Xmx6g"]))
         kinds.append(("ex", name))
     for i, (cs, num) in enumerate(sim):
-        name = _cfg(ctx, "Remux_sim_%d.cfg" % i, CFG % dict(codecs=_q(cs), aus=3, nals=3, emit=3))
+        name = _cfg(ctx, "Remux_sim_%d.cfg" % i, CFG % dict(spec="SimSpec", codecs=_q(cs), aus=3, nals=3, nals265=3, emit=3))
         jobs.append(lambda name=name, num=num, i=i: vf.tlc(
             ctx, "Remux", name, workers=1, timeout=1200, simulate="num=%d" % num, depth=4,
             extra=["-seed", str(2200 + 1000 * int(ctx.seed) + i)], java_opts=["-Xmx6g"]))
         kinds.append(("sim", name))
     res = _par(jobs) if not ctx.thorough else _par(jobs[:4]) + _par(jobs[4:])
+    phases["generate"] = round(time.time() - t0, 1)
     cases, seen, design = [], set(), set()
     for (kind, name), r in zip(kinds, res):
         if kind == "ex":
@@ -100,7 +104,7 @@ def run(ctx):
         for x in r.tagged("DESIGN"):
             design.add((x["codec"], x["init"], str(x["aus"])))
     nex = sum(1 for c in cases if c["src"] == "ex")
-    if nex < 4000 or len(cases) - nex < 200:
+    if nex < 1500 or len(cases) - nex < 200:
         raise vf.Infra("generator produced only %d exhaustive / %d sampled cases" % (nex, len(cases) - nex))
     ctx.set("exhaustive", True)
     ctx.set("cases_enumerated", nex)
@@ -114,6 +118,7 @@ def run(ctx):
     cf = vf.write_ndjson(ctx.path("cases.ndjson"), cases)
     of = ctx.path("obs.ndjson")
     vf.gotest_ok(ctx, "./internal/stream/", "^TestVerif_C22_Replay$", cases=cf, out=of, timeout=1200)
+    phases["replay"] = round(time.time() - t0, 1)
     recs = vf.read_ndjson(of)
     if len(recs) != 2 * len(cases):
         raise vf.Infra("harness produced %d records for %d cases" % (len(recs), len(cases)))
@@ -122,10 +127,11 @@ def run(ctx):
     if ndel < 0.9 * nun:
         raise vf.Infra("only %d of %d units were delivered: the harness' byte patterns are rejected" % (ndel, nun))
 
-    chunk = 20000
+    chunk = ctx.pick(3500, 20000)
     parts = [recs[i:i + chunk] for i in range(0, len(recs), chunk)]
     drift = [0]
     reported = set()
+    bypat = {}
 
     def tv(i):
         part = parts[i]
@@ -138,7 +144,8 @@ def run(ctx):
             rec = part[bad["l"] - 1]
             k = bad["unit"]
             unit = rec["aus"][k - 1]
-            pattern = "parameter-set-reverts-to-current-within-unit" if bad["reverts"] else "other"
+            pattern = bad["pattern"]
+            bypat[rec["codec"] + ":" + pattern] = bypat.get(rec["codec"] + ":" + pattern, 0) + 1
             key = (rec["codec"], rec["via"], bad["clause"], pattern, tuple(unit), str(bad["before"]))
             if key in reported:
                 continue
@@ -155,10 +162,13 @@ def run(ctx):
 
     for i in range(0, len(parts), 4):
         _par([lambda j=j: tv(j) for j in range(i, min(i + 4, len(parts)))])
+    phases["validate"] = round(time.time() - t0, 1)
+    ctx.set("phase_end_s", phases)
     ctx.set("traces_validated_against_impl", len(recs))
     ctx.set("units_delivered", ndel)
     ctx.set("units_written", nun)
     ctx.set("drift_events", drift[0])
+    ctx.set("false_units_by_pattern", bypat)
     if drift[0]:
         ctx.note("%d records of the real code differ from the code-shaped layer of Remux.tla (DRIFT, not a verdict)" % drift[0])
     ctx.sample({k: cases[len(cases) // 3][k] for k in ("codec", "init", "aus")})
